@@ -75,17 +75,25 @@ def roSize (w : World) : RO → Nat
   | .dir _ => 0
   | .static v => v.size
 
+def RO.isDir : RO → Bool
+  | .dir _ => true
+  | _ => false
+
 def roRead (w : World) (ro : RO) (off n : Nat) : Option Bytes :=
   match ro with
   | .plain i => match w.inode? i with | some f => some (f.content.read off n) | none => some []
   | .dir _ => if n == 0 then some [] else none   -- EISDIR, but a zero-length LimitReader never reads
   | .static v => some (v.read off n)
 
+/-- largest offset lseek(2) accepts on the served filesystem (ext4 with 4 KiB blocks: 2^44 − 4096);
+    an environment fact, probed by the harness on its scratch directory -/
+def osSeekMax : Nat := 17592186040320
+
 def roSeekOk (ro : RO) (off : Nat) : Bool :=
   if off ≥ 2 ^ 63 then false     -- int64(offset) < 0
   else match ro with
     | .static v => v.seekOk off
-    | _ => true
+    | _ => off ≤ osSeekMax
 
 /-! ### sector size detection (HandleOpenFile / determineSectorSize) -/
 
@@ -226,6 +234,7 @@ def step (cfg : Cfg) (w : World) (st : State) (r : Req) : World × State × Out 
     | none => (w, st, ⟨[], true⟩)
     | some ro =>
       if !roSeekOk ro off then (w, st, ⟨[], true⟩) else
+      if ro.isDir then (w, st, ⟨[], true⟩) else       -- "is a directory", before anything is announced
       match roRead w ro off limit with
       | none => (w, st, ⟨[], true⟩)
       | some data => (w, st, ⟨readFileResultHdr data.length ++ data, false⟩)
